@@ -162,6 +162,61 @@ func c02Roundtrip(c *core.Ctx, k *core.Case) {
 	}
 }
 
+// oracle "batch": S=[msg names] B=[well-formed plan bytes] — several messages are encoded
+// one after the other through PlainNasEncode, the returned slices are HELD (not
+// copied), and only then decoded. An encoder that hands out memory it reuses
+// later (pooled or package-level buffers) corrupts the earlier results.
+func c02Batch(c *core.Ctx, k *core.Case) {
+	sp := mustSpec(c)
+	if sp == nil {
+		return
+	}
+	type held struct {
+		def  *refcodec.Msg
+		m    *nas.Message
+		wire []byte
+		snap []byte
+	}
+	var hs []held
+	for i, name := range k.S {
+		def := sp.Msg(name)
+		ref := refcodec.Decode(def, k.B[i])
+		if def == nil || def.MsgType == nil || !ref.OK {
+			c.Inconclusive("harness: batch case is not a list of dispatchable well-formed plans")
+			return
+		}
+		obj, err := buildMsg(def, ref.Fields)
+		if err != nil {
+			c.Fail(k, "structure:"+def.Name, err.Error())
+			return
+		}
+		m, err := wrapMsg(def, obj, k.B[i][:def.HeaderLen()])
+		if err != nil {
+			c.Fail(k, "structure:"+def.Name, err.Error())
+			return
+		}
+		wire, err := m.PlainNasEncode()
+		if err != nil {
+			c.Fail(k, "encode-error:"+def.Name, err.Error())
+			return
+		}
+		hs = append(hs, held{def, m, wire, cloneB(wire)})
+	}
+	c.Eval(int64(len(hs)))
+	for i, h := range hs {
+		if !bytes.Equal(h.wire, h.snap) {
+			c.Fail(k, "encoded-bytes-change-after-later-encode", fmt.Sprintf("the bytes returned for message %d (%s) changed after %d later PlainNasEncode calls: %s -> %s", i, h.def.Name, len(hs)-1-i, hx(h.snap), hx(h.wire)))
+			return
+		}
+		in := h.wire
+		m2 := nas.NewMessage()
+		if err := m2.PlainNasDecode(&in); err != nil || !reflect.DeepEqual(h.m, m2) {
+			c.Fail(k, "batch-roundtrip-differs:"+h.def.Name, fmt.Sprintf("message %d (%s) of a batch does not decode back to itself (err %v)", i, h.def.Name, err))
+			return
+		}
+	}
+}
+
 // c02Subsets enumerates presence subsets of the optional slots.
 func c02Subsets(def *refcodec.Msg, thorough bool, fn func(mask uint64)) {
 	opts := def.OptSlots()
@@ -201,7 +256,7 @@ func init() {
 			"well-formedness is exactly the statement's precondition; optional elements carry the table identifier in Iei (type-1: in the octet's high nibble)",
 			"bounds come from spec/messages.json",
 		},
-		Oracles: map[string]func(*core.Ctx, *core.Case){"roundtrip": c02Roundtrip},
+		Oracles: map[string]func(*core.Ctx, *core.Case){"roundtrip": c02Roundtrip, "batch": c02Batch},
 	}
 	p.Floors = func(tier string, cov map[string]map[string]int64, cnt map[string]int64) []string {
 		sp, err := codecSpec()
@@ -228,6 +283,9 @@ func init() {
 					f = append(f, "slot never present at an interior length: "+key)
 				}
 			}
+		}
+		if len(cov["batch"]) == 0 {
+			f = append(f, "no batch of held encodings")
 		}
 		for _, pth := range []string{"0", "1", "2"} {
 			if cov["path"][pth] == 0 {
@@ -339,6 +397,25 @@ func init() {
 					}
 				})
 			}})
+			if def.MsgType != nil {
+				us = append(us, core.Unit{Name: "batch-" + def.Name, Weight: 10, Run: func(c *core.Ctx) {
+					ds := dispatchable(sp)
+					for i := 0; i < c.Pick(40, 1500); i++ {
+						k := &core.Case{Oracle: "batch", Target: "nas.Message.PlainNasEncode"}
+						for j := 0; j < c.R.Range(2, 6); j++ {
+							d := def
+							if j > 0 && c.R.Bool() {
+								d = ds[c.R.Intn(len(ds))]
+							}
+							k.S = append(k.S, d.Name)
+							k.B = append(k.B, refcodec.RandomPlan(d, c.R, c.R.Intn(6), c.R.Intn(5)).Bytes())
+						}
+						c.Do(k)
+						c.Cover("batch", def.Name)
+						c.NonTrivial(k.Hash())
+					}
+				}})
+			}
 			us = append(us, core.Unit{Name: "random-" + def.Name, Weight: 30, Run: func(c *core.Ctx) {
 				for i := 0; i < c.Pick(900, 30000); i++ {
 					pl := refcodec.RandomPlan(def, c.R, i, c.R.Intn(5))
